@@ -145,6 +145,7 @@ where
                 publisher_handle: self.publisher.get_instance_handle(),
                 data_writer_handle: self.handle,
                 dynamic_data,
+                handle,
                 timestamp,
                 reply_sender,
             }))
@@ -206,6 +207,7 @@ where
                 publisher_handle: self.publisher.get_instance_handle(),
                 data_writer_handle: self.handle,
                 dynamic_data,
+                handle,
                 timestamp,
                 reply_sender,
             }))
@@ -240,6 +242,7 @@ where
                 publisher_handle: self.publisher.get_instance_handle(),
                 data_writer_handle: self.handle,
                 dynamic_data,
+                handle,
                 timestamp,
                 reply_sender,
             }))
